@@ -22,6 +22,8 @@ type Scenario struct {
 	// whole scenario, in the order they reach the driver.Conn) is altered.
 	Faults []Fault `json:"faults,omitempty"`
 	Note   string  `json:"note,omitempty"`
+	// Twin is a second scenario that must behave identically (metamorphic checks, C12).
+	Twin *Scenario `json:"twin,omitempty"`
 }
 
 // Step is one action of the (sequential) client.
